@@ -14,7 +14,7 @@ func main() {
 		Rule: "generated programs dominated by coroutine shapes: create/resume/yield ping-pong with 0..2 payload values each way, wrap generators driving for-in, errors inside coroutines, nested resumes, " +
 			"status/running queried from inside and outside, resuming dead/running/normal coroutines; traces compared with the reference evaluator; non-trivial = at least 5 emitted rows or an error outcome; distinct by Gallina term",
 		Modes:     []luaprop.Mode{{Name: "coroutines", Features: f, Weight: 1}},
-		NQuick:    220,
+		NQuick:    400,
 		NThorough: 6000,
 		Corpus:    corpus,
 		Isolate:   true,
